@@ -15,6 +15,8 @@ type CaseReport struct {
 	Agree      bool          `json:"agree"`
 	Skipped    string        `json:"skipped,omitempty"`
 	Diffs      []string      `json:"diffs,omitempty"`
+	Cats       []string      `json:"cats,omitempty"`
+	LineDiffs  []LineDiff    `json:"lineDiffs,omitempty"`
 	CLI        CLIResult     `json:"cli"`
 	Model      *FrontResult  `json:"model,omitempty"`
 	ImplFuncs  []FuncSummary `json:"implFuncs,omitempty"`
@@ -59,19 +61,22 @@ func compareFront(cli string, drv *Driver, dir, setup string) CaseReport {
 	}
 	_ = os.Remove(out)
 
-	diff := func(format string, a ...any) { rep.Diffs = append(rep.Diffs, fmt.Sprintf(format, a...)) }
+	diff := func(cat, format string, a ...any) {
+		rep.Diffs = append(rep.Diffs, fmt.Sprintf(format, a...))
+		rep.Cats = append(rep.Cats, cat)
+	}
 
 	implErr := canonStderr(rep.CLI.Stderr, dir)
 	switch model.Status {
 	case "panic":
 		if rep.CLI.Class != "panic" {
-			diff("model predicts panic (%s), CLI class %s", model.PanicSite, rep.CLI.Class)
+			diff("exit", "model predicts panic (%s), CLI class %s", model.PanicSite, rep.CLI.Class)
 		}
 	case "error":
 		if rep.CLI.Class != "error" {
-			diff("model predicts error exit, CLI class %s", rep.CLI.Class)
+			diff("exit", "model predicts error exit, CLI class %s", rep.CLI.Class)
 		} else if !equalLines(model.Stderr, implErr) {
-			diff("stderr differs:\n  model: %q\n  impl:  %q", model.Stderr, implErr)
+			diff("stderr", "stderr differs:\n  model: %q\n  impl:  %q", model.Stderr, implErr)
 		}
 	case "ok":
 		mf, merr := modelFuncs(facts.PkgName, model.Blocks)
@@ -79,33 +84,33 @@ func compareFront(cli string, drv *Driver, dir, setup string) CaseReport {
 		if merr != nil {
 			// the model's function text is not parseable Go: the CLI must fail in imports.Process
 			if rep.CLI.Class != "error" {
-				diff("model output does not parse (%v) but CLI class %s", merr, rep.CLI.Class)
+				diff("exit", "model output does not parse (%v) but CLI class %s", merr, rep.CLI.Class)
 			}
 			break
 		}
 		if rep.CLI.Class == "panic" || rep.CLI.Class == "timeout" {
-			diff("model predicts success, CLI class %s", rep.CLI.Class)
+			diff("exit", "model predicts success, CLI class %s", rep.CLI.Class)
 			break
 		}
 		if rep.CLI.Class == "error" {
 			// L6/L7 (base code, goimports, gofmt) may still reject; the front half must agree on stderr prefix
 			if !prefixLines(model.Stderr, implErr) {
-				diff("CLI failed after the front half and stderr differs:\n  model: %q\n  impl:  %q", model.Stderr, implErr)
+				diff("stderr", "CLI failed after the front half and stderr differs:\n  model: %q\n  impl:  %q", model.Stderr, implErr)
 			}
 			rep.Skipped = "back-half-error"
 			break
 		}
 		if !equalLines(model.Stderr, implErr) {
-			diff("stderr differs:\n  model: %q\n  impl:  %q", model.Stderr, implErr)
+			diff("stderr", "stderr differs:\n  model: %q\n  impl:  %q", model.Stderr, implErr)
 		}
 		if rerr != nil {
-			diff("CLI exit 0 but no output file")
+			diff("exit", "CLI exit 0 but no output file")
 			break
 		}
 		impl, perr := summarizeFuncs(outBytes)
 		rep.ImplFuncs = impl
 		if perr != nil {
-			diff("output does not parse: %v", perr)
+			diff("exit", "output does not parse: %v", perr)
 			break
 		}
 		// the output also carries the functions that were already in the setup file; compare
@@ -114,14 +119,31 @@ func compareFront(cli string, drv *Driver, dir, setup string) CaseReport {
 		for _, f := range impl {
 			implMap[f.Key] = f.Text
 		}
+		same := true
 		for _, f := range mf {
-			it, ok := implMap[f.Key]
-			if !ok {
-				diff("function %s missing in the output", f.Key)
-				continue
+			if it, ok := implMap[f.Key]; !ok || it != f.Text {
+				same = false
 			}
-			if it != f.Text {
-				diff("function %s differs:\n--- model\n%s\n--- impl\n%s", f.Key, f.Text, it)
+		}
+		if !same {
+			// localise
+			var sb strings.Builder
+			sb.WriteString("package " + facts.PkgName + "\n\n")
+			for _, f := range mf {
+				sb.WriteString(f.Text + "\n\n")
+			}
+			ml, err1 := readFuncs([]byte(sb.String()))
+			il, err2 := readFuncs(outBytes)
+			if err1 != nil || err2 != nil {
+				diff("body", "function texts differ and cannot be localised: %v %v", err1, err2)
+			} else {
+				rep.LineDiffs = diffFuncs(ml, il)
+				for _, d := range rep.LineDiffs {
+					diff(d.Cat, "%s", d.String())
+				}
+				if len(rep.LineDiffs) == 0 {
+					diff("body", "function texts differ (layout only?)")
+				}
 			}
 		}
 	}
